@@ -2622,15 +2622,27 @@ def c13(idx: Index, rep: Report, tier: str) -> None:
     renamed, or the pair set aside). Substituter consults get_free_variables(k) only."""
     rule = "C13.5 T1 capture-avoidance-consults-the-inserted-values"
     pw = idx.func("model.walkers.substituter.Substituter._push_with_children_to_stack")
-    loops = [l for l in walk_no_nested(pw.node) if isinstance(l, ast.For) and isinstance(l.target, ast.Tuple) and len(l.target.elts) == 2 and isinstance(l.iter, ast.Call) and call_name(l.iter) == "items"]
+    entry_q = pw.qualname
+    def _map_loops(fn):
+        return [l for l in walk_no_nested(fn.node) if isinstance(l, ast.For) and isinstance(l.target, ast.Tuple) and len(l.target.elts) == 2 and isinstance(l.iter, ast.Call) and call_name(l.iter) == "items"]
+
+    loops = _map_loops(pw)
     if not loops:
-        raise AnalysisError(f"{rule}: the loop over the substitution map was not found in _push_with_children_to_stack")
+        # the filtering of the map may have been extracted into a private helper of the class
+        sc = idx.cls("model.walkers.substituter.Substituter")
+        for c in walk_no_nested(pw.node):
+            if isinstance(c, ast.Call) and isinstance(c.func, ast.Attribute) and norm(c.func.value) == "self" and c.func.attr.startswith("_") and c.func.attr in sc.methods and _map_loops(sc.methods[c.func.attr]):
+                pw = sc.methods[c.func.attr]
+                loops = _map_loops(pw)
+                break
+    if not loops:
+        raise AnalysisError(f"{rule}: the loop over the substitution map was not found in _push_with_children_to_stack (or a helper it calls)")
     for l in loops:
         kname, vname = (norm(x) for x in l.target.elts)
         consulted = {norm(c.args[0]) for st in l.body for c in ast.walk(st) if isinstance(c, ast.Call) and call_name(c) == "get_free_variables" and c.args}
-        rep.check(kname in consulted, rule, "the free variables of each key are compared with the bound variables", pw.loc(l), construct=f"get_free_variables({kname})" if kname in consulted else f"consults {sorted(consulted)}", function=pw.qualname)
+        rep.check(kname in consulted, rule, "the free variables of each key are compared with the bound variables", pw.loc(l), construct=f"get_free_variables({kname})" if kname in consulted else f"consults {sorted(consulted)}", function=entry_q)
         ok = vname in consulted
-        rep.check(ok, rule, "the free variables of each inserted value are compared with the bound variables", pw.loc(l), construct=f"get_free_variables({vname})" if ok else f"the loop over the map consults get_free_variables of {sorted(consulted)} only, never of the value", detail="" if ok else "a value that mentions a variable with the name of a variable bound inside the expression is inserted under that quantifier and captured: substituting x := y in `Forall y. q(x, y)` gives `Forall y. q(y, y)`; Simplifier.walk_exists relies on this substitution, so `Exists x. (x == y and Forall y. q(x, y))` simplifies to `Forall y. q(y, y)`", function=pw.qualname)
+        rep.check(ok, rule, "the free variables of each inserted value are compared with the bound variables", pw.loc(l), construct="get_free_variables(<value>)" if ok else "free variables are computed for what gets replaced only — never for what gets inserted", detail="" if ok else "a value that mentions a variable with the name of a variable bound inside the expression is inserted under that quantifier and captured: substituting x := y in `Forall y. q(x, y)` gives `Forall y. q(y, y)`; Simplifier.walk_exists relies on this substitution, so `Exists x. (x == y and Forall y. q(x, y))` simplifies to `Forall y. q(y, y)`", function=entry_q)
 
 
 
